@@ -39,6 +39,15 @@ def run(sc):
                 for p_ in ([pid] + (['C04'] if opt == 'max_async_tasks' else [])):
                     pr.append(f"{p_}: `taskiq worker {' '.join(argv[1:])}` builds its receiver with {opt}={got.get(opt, '<missing>')!r}, the command line says {v!r}")
         if pr: fails.append({'key': ' '.join(argv[1:]), 'failed_clauses': pr})
+    # the options of the process manager (C17/C18): worker count and failure budget as parsed from the command line
+    for W, MF in ((1, -1), (3, 2), (2, 1)):
+        n += 1; a_ = WorkerArgs.from_cli(['m:b', '--workers', str(W), '--max-fails', str(MF)])
+        pr = []
+        if a_.workers != W: pr += [f"{p_}: `taskiq worker --workers {W}` parsed as workers={a_.workers!r}" for p_ in ('C17',)]
+        if a_.max_fails != MF: pr += [f"{p_}: `taskiq worker --max-fails {MF}` parsed as max_fails={a_.max_fails!r}" for p_ in ('C18',)]
+        if pr: fails.append({'key': f"--workers {W} --max-fails {MF}", 'failed_clauses': pr})
+    d_ = WorkerArgs.from_cli(['m:b']); n += 1
+    if d_.max_fails >= 1 or d_.workers < 1: fails.append({'key': 'defaults', 'failed_clauses': [f"C18: default command line parsed as workers={d_.workers!r}, max_fails={d_.max_fails!r} (no failure budget is configured by default)"]})
     # the programmatic worker (taskiq.api.run_receiver_task) and the in-memory broker build receivers from options of their own
     import taskiq.api.receiver as api_mod, inspect
     from taskiq.receiver import Receiver as _R
